@@ -35,6 +35,7 @@ type (
 		Var          string
 		Lo, Hi, Body Expr
 		Sort         string // non-empty: unbounded quantification over this SMT sort
+		Exists       bool
 	}
 	Ite struct{ C, A, B Expr }
 )
@@ -259,12 +260,13 @@ func (p *parser) primary() Expr {
 			return BoolLit{false}
 		case "nil":
 			return NilLit{}
-		case "forall":
+		case "forall", "exists":
+			ex := t.v == "exists"
 			v := p.next().v
 			if p.isKw("string") {
 				p.next()
 				p.expectOp("::")
-				return Forall{Var: v, Body: p.iff(), Sort: "String"}
+				return Forall{Var: v, Body: p.iff(), Sort: "String", Exists: ex}
 			}
 			if !p.isKw("in") {
 				panic("forall: 'in' expected")
@@ -276,7 +278,7 @@ func (p *parser) primary() Expr {
 			hi := p.iff()
 			p.expectOp(")")
 			p.expectOp("::")
-			return Forall{Var: v, Lo: lo, Hi: hi, Body: p.iff()}
+			return Forall{Var: v, Lo: lo, Hi: hi, Body: p.iff(), Exists: ex}
 		case "if":
 			c := p.iff()
 			if !p.isKw("then") {
@@ -330,7 +332,7 @@ func substIdents(x Expr, m map[string]Expr) Expr {
 				m2[k] = v
 			}
 		}
-		f := Forall{Var: n.Var, Sort: n.Sort, Body: substIdents(n.Body, m2)}
+		f := Forall{Var: n.Var, Sort: n.Sort, Body: substIdents(n.Body, m2), Exists: n.Exists}
 		if n.Lo != nil {
 			f.Lo = substIdents(n.Lo, m)
 		}
